@@ -405,10 +405,15 @@ class Host(object):
                 self.res.violate("WROTE-ELSEWHERE", "the invocation touched %s, which is not one of its targets %r: %r" % (path, sorted(targets), ev[1:4]), k)
                 return
         after = self.w.fs.snapshot()
-        for path in sorted(set(snapshot) | set(after)):
+        for path in sorted(snapshot):
+            # files that were there before: a new file beside the targets (a backup copy, a lock file) is not
+            # something any property forbids, changing or removing somebody else's file is
             if path not in targets and snapshot.get(path) != after.get(path):
                 self.res.violate("WROTE-ELSEWHERE", "%s changed although it is not one of the invocation's targets %r" % (path, sorted(targets)), k)
                 return
+        for path in sorted(set(after) - set(snapshot)):
+            if path not in targets:
+                self.res.stats["new_file_beside_the_targets_not_judged"] += 1
 
     # -- ops ---------------------------------------------------------------------------------
     def assemble_reference(self, lines):
